@@ -277,6 +277,15 @@ class TyGen:
 				out.append((f'wrap({e})', ('list', t), False))
 			if k == 'dict' and not loose:
 				out.append((f'lookup({e}, {self.key0(t[1])})', t[2], False))
+			if o['more'] and k == 'list' and t[1][0] == 'tuple' and len(t[1]) == 3 and (t[1][1] in (INT, STR) or t[1][1][0] == 'enum'):
+				out.append((f'to_dict({e})', ('dict', t[1][1], t[1][2]), True))
+				out.append((f'dict({e})', ('dict', t[1][1], t[1][2]), True))
+				if t[1][2][0] == 'list' and not loose:
+					out.append((f'heads({e})', ('tuple', t[1][1], t[1][2][1]), False))
+			if o['more'] and k == 'list':
+				out.append((f'dict(enumerate({e}))', ('dict', INT, t[1]), True))
+			if o['more'] and k == 'dict' and t[1] == STR and t[2][0] == 'tuple' and len(t[2]) == 3 and not loose:
+				out.append((f'flip({e})', ('tuple', t[2][2], t[2][1]), False))
 			if o['more'] and k != 'opt':
 				t2_ = self.r.choice(SCALARS)
 				out.append((f'pairup({e}, {self.lit(t2_)})', ('tuple', t, t2_), False))
@@ -325,6 +334,11 @@ class TyGen:
 				if c < 0.85:
 					return f'abs({a})' if self.opts['minmax'] else a
 				return f'-{a}' if not a.startswith('-') else a
+			if k == 'float' and self.opts['mixed_arith'] and r.random() < 0.3:
+				# flat chains of different operators: every step of the chain is typed with its own operator
+				i1, i2 = self.expr(INT, env, 0), self.expr(INT, env, 0)
+				return r.choice([f'({i1} * {i2} / {r.randint(1, 9)})', f'({i1} % {r.randint(1, 9)} / {r.randint(1, 9)})', f'(1 + {i1} * {i2} / {r.randint(1, 9)})',
+					f'({i1} - {i2} * 2 / 4)', f'({i1} % 2.5)', f'({i1} * 2 % 1.5 + {i2})', f'({i1} + {i2} - 0.5)'])
 			if k == 'float':
 				a = self.expr(FLOAT, env, depth - 1)
 				c = r.random()
@@ -558,7 +572,10 @@ class TyGen:
 			'def wrap[T3](v: T3) -> list[T3]:', '\treturn [v]', '', '',
 			'def lookup[K4, V4](d: dict[K4, V4], k: K4) -> V4:', '\treturn d[k]', '', '',
 			'def pairup[A5, B5](a: A5, b: B5) -> tuple[A5, B5]:', '\treturn (a, b)', '', '',
-			'def apply[A6, B6](f: Callable[[A6], B6], a: A6) -> B6:', '\treturn f(a)', '', '']
+			'def apply[A6, B6](f: Callable[[A6], B6], a: A6) -> B6:', '\treturn f(a)', '', '',
+			'def to_dict[K7, V7](pairs: list[tuple[K7, V7]]) -> dict[K7, V7]:', '\treturn {k: v for k, v in pairs}', '', '',
+			'def flip[K8, V8](t: dict[str, tuple[K8, V8]]) -> tuple[V8, K8]:', "\treturn (t['k0'][1], t['k0'][0])", '', '',
+			'def heads[A9, B9](rows: list[tuple[A9, list[B9]]]) -> tuple[A9, B9]:', '\treturn (rows[0][0], rows[0][1][0])', '', '']
 		self.features.add('gf')
 
 	def gen_class(self) -> None:
